@@ -63,7 +63,11 @@ reg("C05", "exploration",
     "(quick) / 10^5 (thorough) entries (distinct by fingerprint of the entry list + codec; non-trivial = >=2 entries); each "
     "case runs encode-vs-spec, decode(own), decode(independent encoder) and, for a subset, the async twins; further classes: offsets "
     "k*2^32 behind the previous entry's end (alias 'contiguous' under 32-bit arithmetic), very regular lists of 4 000...100 000 entries "
-    "that compress to a few dozen bytes, and lists whose UNCOMPRESSED encoding begins with the gzip / zstd / zlib magic bytes",
+    "that compress to a few dozen bytes, lists whose UNCOMPRESSED encoding begins with the gzip / zstd / zlib magic bytes, every varint "
+    "width boundary 2^7...2^28 +-1 in the length and run-length columns, entries that continue their predecessor's run without being "
+    "merged, ids right below / across the end of the z/x/y id domain; the sync stream parser under short reads; two directories "
+    "stored back to back in one stream parsed without seeking in between; a third of the parses preceded by failed parses of cut / "
+    "damaged copies",
     require={"any": {"encode_matches_spec": 1000, "foreign_decode_ok": 1000, "async_twins": 50,
                      "lists_whose_plain_encoding_starts_with_a_codec_magic": 4, "regular_long_lists": 4}},
     phases=with_layers("miri"))
@@ -73,7 +77,9 @@ reg("C07", "exploration",
     "tile_id(zxy) vs id, adjacency of consecutive ids, zoom-block order, children blocks), boundary/random points at every "
     "zoom 0-31, boundary/random u64 ids incl. ids beyond zoom 31, and coordinate lookups outside the grid for z=0..255 against "
     "archives holding the aliased tile, the id the library itself computes, 0 and ids an implementation might use as an 'invalid' "
-    "sentinel (u64::MAX, u64::MAX-1, 2^63, i64::MAX, u32::MAX, first id of zoom 32) (distinct by fingerprint of (z,x,y) / id; "
+    "sentinel (u64::MAX, u64::MAX-1, 2^63, i64::MAX, u32::MAX, first id of zoom 32), the in-grid alias being looked up first on the same "
+    "archive; zoom-block edges walked upwards AND downwards, jumps between distant zooms, rejected ids directly followed by ids of the "
+    "highest zooms (distinct by fingerprint of (z,x,y) / id; "
     "non-trivial = out-of-grid or z>=1)",
     require={"any": {"sweep_ids": 80000000, "adjacency_checked": 80000000, "lookup_out_of_grid_none": 1000,
                      "lookup_in_grid_ok": 100, "ids_rejected": 1000, "children_blocks_checked": 1000}},
@@ -84,7 +90,8 @@ reg("C09", "exploration",
     "values thorough; six slots per header; distinct by enumeration), random/boundary integer+enum fields incl. structured specials "
     "(center / bounds / counters / zooms 'not set' = all zero, or equal to each other) with short-read, "
     "async and consumed-bytes clauses, sampled f64 degrees incl. half-step ties (nearest-multiple clause), and the rejection "
-    "classes (each magic byte, every version != 3, every unknown enum code, every truncation 0..126)",
+    "classes (each magic byte, every version != 3, every unknown enum code, every truncation 0..126), also through the derived "
+    "TryFrom<&[u8]> entry point and into sinks with short writes (sync and async)",
     require={"any": {"stored_values_swept": 100000000, "degree_headers": 10000, "rejections_ok": 1000, "detail_checks": 1000}},
     exhaustive_key="stored_sweep_exhaustive", phases=with_layers("miri"))
 
@@ -104,7 +111,9 @@ reg("C08", "exploration",
     "a re-write on whatever opened: (a) crafted corpus, >=1 archive per hazard class x 4 codecs (incl. cycle-free chains of 3...90 000 "
     "DISTINCT nested directories, i.e. below and above any stack limit yet inside the visit budget; declared tile lengths summing to "
     "48 GiB / 3 TiB in a 64-byte data section; zstd frames whose header declares up to 2^64-2 content bytes; offsets aliasing other "
-    "sections); (b) every prefix and every "
+    "sections; every 1-byte and selected 2-byte metadata; non-object JSON with multi-byte characters from every byte offset 1...70; "
+    "in the thorough tier a 54 MB metadata bomb); the same bytes behind a 300-byte prefix with the reader positioned at the archive's "
+    "first byte; (b) every prefix and every "
     "single-byte boundary substitution {00,01,7f,80,ff,+1,-1} of small valid archives (exhaustive); (c) structure-aware "
     "mutations of valid archives in all codecs (header fields / raw varint columns / counts -> boundary values, pointer "
     "retargeting incl. cycles, stream corruption, wrong codec, stale headers, truncation), splices and bursts. Distinct by "
@@ -124,7 +133,9 @@ reg("C15", "fault_enumeration",
     "Directory to_writer/from_reader, Header to_writer/from_reader} x {small, leaf-spilling} x 4 codecs x {sync, async}, plus lookup "
     "SEQUENCES that continue after a failure (same id retried, run-length neighbour, deduplicated twin, absent id: every call that "
     "reports success must return the tile's bytes) and the archive writers behind std / futures BufWriter (a failure reaches the "
-    "library only at a flush or seek, possibly its last operation; the stream is handed back unflushed); for each the "
+    "library only at a flush or seek, possibly its last operation; the stream is handed back unflushed), and re-writes of an OPENED "
+    "archive with faults in the destination or in the source reader; the error kind of the injected fault rotates over ten kinds "
+    "(all of them at k < 2); for each the "
     "fault-free run defines N stream operations and the run in which operation k and all later ones fail is executed for every "
     "k < N (stride reported per scenario when N exceeds the tier's limit). Distinct by enumeration of (scenario,k); every case "
     "injects a fault, so all are non-trivial. Oracle: no panic, and Ok => stream image / returned value equals the fault-free one.",
@@ -135,7 +146,8 @@ reg("C15", "fault_enumeration",
 reg("C18", "exploration",
     "cases = (logical archive, start position P, pre-fill, writer): P in {0,1,10,127,128,4096,random<2^20}, pre-fill "
     "{empty, shorter than P, exactly P, slightly longer, longer than the archive} of sentinel bytes, archives empty/1/small/"
-    "medium/leaf-spilling and archives with more than 2^24 bytes of tile data, 4 codecs, sync and async (with Pending) writers; "
+    "medium/leaf-spilling and archives with more than 2^24 bytes of tile data, start positions shortly before a multiple of 512/4096 and "
+    "at / beyond 2^32 (stream with a storage-less hole below), a third of the streams with short or block-aligned writes, 4 codecs, sync and async (with Pending) writers; "
     "distinct by fingerprint of (archive,P,pre-fill,api); "
     "non-trivial = P > 0. Oracle: sentinel bytes before P intact, stream[P..final position] validates with the independent reader "
     "and addresses exactly the logical content (offsets relative to P), final position = P + archive end.",
@@ -145,7 +157,9 @@ reg("C11", "exploration",
     "cases = (archive, set of ranges): archives library-written (empty/1/small/medium/leaf-spilling) and foreign (directory depth "
     "1-3 and deeper, tile entries and leaf pointers mixed in one directory, many small leaves, single-id ranges, any layout), 4 codecs; per archive ~110 (quick) / ~260 (thorough) ranges covering all 3x3 bound kinds with endpoints "
     "steered onto 0, 1, leaf first ids +-1, run starts/ends +-1, last id +-1, u64::MAX, the literal forms ..0 ..=0 0..0 .. , "
-    "inverted and empty ranges and random ones; entry points from_bytes_partially (every range) and from_reader_partially / "
+    "inverted and empty ranges, bounds k*2^32 + d past an entry, and random ones; archives with tile ids beyond zoom 31 (up to 2^64-4), "
+    "archives whose tile data is cut off, and - without a codec - a sibling archive of identical layout opened with the same range "
+    "right before; entry points from_bytes_partially (every range) and from_reader_partially / "
     "from_async_reader_partially / util::read_directories (rotating). Distinct by fingerprint of archive bytes; non-trivial = "
     "full open has >= 2 tiles. Oracle: the full open of the same bytes filtered with RangeBounds::contains.",
     require={"any": {"ranges_equal": 5000, "ranges_selecting_strict_subset": 500, "ranges_selecting_nothing": 500,
@@ -165,7 +179,12 @@ reg("C01", "exploration",
     "neighbour's bytes, save + reopen, then the remaining tiles next to and over reader-backed ones); metadata of 70-400 KiB; tiles "
     "above 1 MiB / 2^24 bytes; leaf-spilling archives with k*4096+r entries (r in {0,1,2,31,63,64,100,4095}); archives whose first "
     "leaf directory is size-steered to exactly 127 bytes so that the second leaf lies at leaf-section offset 127 (= the root's "
-    "absolute offset); written by the sync (4/5) or async (1/5) writer and opened with from_bytes. "
+    "absolute offset); redundant metadata above 1 MiB; two-session builds look reader-backed tiles up and bind / unbind a temporary id "
+    "before the second half is added; a tenth of the archives additionally goes through real files (File, BufWriter<File>, "
+    "BufReader<File>: the file must hold exactly what an in-memory cursor receives) and a tenth is opened through a reader with short "
+    "reads; a third of the writes / opens is preceded, on the same thread, by library calls that FAIL (writes into failing and too "
+    "small sinks, a refused directory, opens of cut and damaged copies of the very archive); written by the sync (4/5) or async (1/5) "
+    "writer and opened with from_bytes. "
     "Distinct by fingerprint of the logical archive; non-trivial = >=2 tiles and (duplicates or non-empty metadata). Oracle: the "
     "generator's own map + settings; every added tile fetched, ~100 absent ids probed per archive.",
     require={"any": {"round_trips_equal": 300, "archives_with_leaf_directories": 8, "coordinate_lookups_equal": 1000,
@@ -257,7 +276,10 @@ reg("C03", "exploration",
     "PREFIX of another entry's bytes, tile entries and leaf pointers mixed in one directory, a leaf at leaf-section offset 127 with the "
     "root at absolute offset 127, gzip leaves of 32768*k+4 bytes stored back to back, and the most regular directory there is "
     "(32...60 000 consecutive ids, equal lengths, contiguous offsets, one run at the very end; compression ratios far above 1000:1) with "
-    "find_entry probes inside the final run. Distinct by fingerprint of the archive bytes; non-trivial = >= 2 entries.",
+    "find_entry probes inside the final run; zstd frames with explicit windows of 2^23...2^27 bytes; padding at exactly one site; a leaf "
+    "placed so that it ends at the tile-data offset of the tile entry that follows its pointer (offset column 0 = contiguous with a "
+    "POINTER); a fifth of the opens is preceded by failed opens of cut / damaged copies on the same thread. Distinct by fingerprint of "
+    "the archive bytes; non-trivial = >= 2 entries.",
     require={"any": {"archives_equal": 1000, "entry_maps_equal": 1000, "fixtures_equal": 3, "find_entry_probes": 2000,
                      "depth.3": 50, "depth.2": 50, "layouts_with_permuted_sections": 100, "layouts_with_gaps": 100,
                      "layouts_with_empty_metadata": 50, "offset_style.2": 100,
@@ -275,7 +297,9 @@ reg("C04", "exploration",
     "states {empty, opened foreign archive whose single run-length entry maps 5,6 -> A} (distinct by enumeration), (b) random "
     "histories of 200-2000 ops over up to 10^3 ids across zooms and a 50-content pool with a save+reopen every 50 ops alternating "
     "sync/async and the 4 codecs, some starting with a bulk of 4 100-9 500 distinct tiles (leaf directories) or 65 537-70 000 tiles on "
-    "consecutive ids (more than 2^16 entries), textual contents handed over as String / &str / Vec<u8> (distinct by fingerprint). After EVERY op of (a) and every 25th of (b): lookups of the id universe by "
+    "consecutive ids (more than 2^16 entries) or one content on more than 2^20 consecutive ids whose first 65 540 sharers are removed "
+    "again, a sixth starting from a nested archive of the independent writer (bottom-up leaves, mixed directories, any section order), "
+    "textual contents handed over as String / &str / Vec<u8>, empty adds in every Into<Vec<u8>> shape (distinct by fingerprint). After EVERY op of (a) and every 25th of (b): lookups of the id universe by "
     "id and by coordinates, listing, count vs a BTreeMap model, plus the in-crate store report (feature verif). Evidence: "
     "transition matrix op x abstract pre-state {absent, mem-unique, mem-shared, backed}.",
     require={"any": dict(_C04_CELLS, **{"full_state_comparisons": 50000, "exhaustive_histories": 20000,
@@ -291,7 +315,9 @@ reg("C10", "exploration",
     "extended in memory, and re-written; histories {all in memory, half / save+reopen / half (duplicates between reader-backed and "
     "in-memory tiles; lower half first, UPPER half first, or alternating blocks of three ids, so that later adds sit in front of, behind and "
     "between reader-backed runs; some lookups before the second half), save+reopen then re-add identical bytes, detours through junk that "
-    "is replaced/removed}; textual contents handed to add_tile as String / &str / Vec<u8> depending on the id; contents above 1 MiB; sync and async "
+    "is replaced/removed}; leaf-spilling archives WITH runs; n singles then a run with n on/next to 2^16, 2^17, 2^18; more than 2^18 "
+    "distinct contents; a run beyond 2^20; saves over a longer stale file and saves by another thread than the one that added the "
+    "tiles; textual contents handed to add_tile as String / &str / Vec<u8> depending on the id; contents above 1 MiB; sync and async "
     "stores; 4 codecs. Distinct by fingerprint of (archive, history); non-trivial = the archive has duplicate contents. Oracle: "
     "written file parsed by the reference reader (data length = sum of distinct contents, identical content <=> identical offset, "
     "no mergeable neighbours, entry count = number of maximal runs, content counter) + store report of the builder at quiescent "
@@ -307,8 +333,10 @@ reg("C06", "exploration",
     "16384/16385 bytes, codec lists bracketed around the first spilling prefix (+-2 entries), and random lists of 0..10^4 (quick) / "
     "10^5 (thorough) entries, and very regular lists of 16 257...200 000 entries that compress to a few hundred bytes (must NOT spill "
     "under a codec); lists whose every entry has a 6-byte offset varint and id deltas up to 2^40; the same clauses through whole-archive "
-    "writes at start positions {0,1,777,20 000}, half of them into a sink that accepts only part of most writes; initial leaf sizes "
-    "{default,1,2,7,33,4096,10^6}. Distinct by fingerprint of (list, codec, leaf size); "
+    "writes at start positions {0,1,777,20 000}, half of them into a sink that accepts only part of most writes; whole archives without a "
+    "codec whose single directory has 3700...4100 entries (just below / above the budget) behind a few KiB of metadata; streams that "
+    "already hold stale bytes behind the write position; lists with offsets k*2^32 off contiguous and with unmerged neighbours; initial "
+    "leaf sizes {default,1,2,7,33,4096,10^6,usize::MAX/2+1,usize::MAX}. Distinct by fingerprint of (list, codec, leaf size); "
     "non-trivial = >= 2 entries. Oracle: root = stream[start, position) <= 16257 bytes and decodes (exact consumption) as one "
     "directory; spill => only pointers, each [offset,offset+length) decodes as exactly one leaf whose first id is the pointer's id, "
     "concatenated leaves = input; no spill => root = input and = single-directory encoding; spill <=> single-directory encoding > 16257.",
@@ -319,7 +347,8 @@ reg("C06", "exploration",
 reg("C17", "fault_enumeration",
     "cases = (archive, writer, crash point k): archives empty/1/small/medium/leaf-spilling, more than 2^24 bytes of tile data, uncompressed "
     "tiles with long zero runs in and at the END of the tile data; the object written is built with add_tile, or OPENED from an existing "
-    "archive and written again unchanged, or opened, edited (metadata + one tile) and written; x 4 codecs x sync/async writer into a "
+    "archive and written again unchanged, or opened, edited (metadata + one tile) and written; a quarter of the writes is preceded on "
+    "the same thread by the complete write of a sibling archive (same ids, sizes, settings, other bytes) and by failed writes; x 4 codecs x sync/async writer into a "
     "fresh recording stream; the N recorded stream operations (each write atomic) are replayed for EVERY k in [0,N] into a fresh "
     "image which is handed to PMTiles::from_bytes. Distinct by enumeration of (scenario,k); non-trivial = the image changed since "
     "k-1 (the k-th operation was a write). Oracle: Ok => image byte-identical to the complete archive.",
@@ -336,7 +365,9 @@ reg("C19", "exploration",
     "(incl. strings that hold an object, long strings / arrays with multi-byte characters starting at byte offsets 1...255, long numbers) x 4 "
     "codecs x sync/async open (archives from the independent writer); Unknown internal compression on write (empty / non-empty, "
     "sync/async), on open (patched foreign archives with and without metadata, and a header-only archive whose sections are all empty; "
-    "full opens and range-filtered opens with ordinary, empty and inverted ranges), and at directory level (also zero-length input). Each clause has a positive control. Distinct by fingerprint; all non-trivial.",
+    "full opens and range-filtered opens with ordinary, empty and inverted ranges), the directory-tree writer (also for 4065...9000 "
+    "entries without a codec), zero-length entries that share their predecessor's offset, empty adds in every Into<Vec<u8>> shape, "
+    "and at directory level (also zero-length input). Each clause has a positive control. Distinct by fingerprint; all non-trivial.",
     require={"any": {"serialiser_rejections": 1000, "parser_rejections": 1000, "parser_rejections_async": 1000, "empty_adds_refused": 1000,
                      "saves_equal_to_untouched_twin": 50, "non_object_metadata_refused": 200, "non_object_metadata_refused_async": 200,
                      "unknown_compression_refused_on_write": 16, "unknown_compression_refused_on_open": 32,
@@ -345,7 +376,9 @@ reg("C19", "exploration",
 reg("C20", "exploration",
     "cases = archives with non-overlapping sections: library-written (C01 classes) and foreign layouts (permuted sections, sentinel "
     "gaps, tile data before directories/metadata, depth 1-3, mixed directories), one content under >= 2^17 ids, tiles above 2^24 bytes "
-    "with other tiles stored behind them, 4 codecs, sync/async (with Pending) readers, full and range-filtered "
+    "with other tiles stored behind them, one uncompressed leaf of more than 2^16 entries directly in front of the tile data, padding at "
+    "exactly one site, two fifths of the archives through streams with short reads, point-query ranges, a lookup after one transient "
+    "stream fault, 4 codecs, sync/async (with Pending) readers, full and range-filtered "
     "opens; every tile id (<= 500 tiles) or 500 sampled ids looked up, plus one absent id. Distinct by fingerprint of the archive "
     "bytes; non-trivial = >= 2 tiles. Oracle: interval arithmetic over the recorded read operations (bytes actually returned) "
     "against the sections declared by the independently parsed header: open reads only header/metadata/root/leaf bytes; a lookup "
@@ -359,7 +392,8 @@ reg("C12", "exploration",
     "compared, None outputs byte-compared, async output judged by the independent reader), foreign and library-written archives "
     "(sync vs async full and range-filtered opens incl. every tile's bytes; read_directories twins; RE-WRITE twins: opened with either "
     "reader kind and written with the matching writer, both outputs must hold the source's content and be byte-identical without a "
-    "codec), lock-step edit histories on a sync and an async archive, entry lists x 4 codecs "
+    "codec; lookups by coordinates inside and outside the grid), lock-step edit histories on a sync and an async archive, lookups in "
+    "storage order with ONE transient stream fault injected on both sides now and then, entry lists x 4 codecs "
     "(Directory twins both ways; write_directories twins resolved through the reference decoder, incl. lists size-steered to "
     "16255...16259 / 16384 bytes where both twins must take the same spill decision) and headers. Async code is driven "
     "by block_on over plain cursors and over the instrumented stream with short transfers and random Pending. Distinct by "
@@ -375,7 +409,8 @@ reg("C13", "exploration",
     "directories on read and on write, sync and async (with Pending bit patterns); codec directories under every fixed chunk size, "
     "every two-part split and random compositions; headers under every fixed chunk 1..127 and every two-part split; whole archives "
     "(incl. leaf-spilling, 4 codecs; one with two contents above 2^24 bytes under chunks {4096, 65536, 2^20-1, random}) under fixed chunks {1,2,3,7,64,4096} and random schedules x {sync, async + Pending "
-    "(alternate/random/never)} x {read, write}; every Pending pattern over the first 12 polls of an async open+dump and write. "
+    "(alternate/random/never)} x {read, write, re-write of the archive opened through the fragmenting reader}, block-oriented streams "
+    "(a transfer never crosses a multiple of 100/127/512/4096), metadata above 64 KiB; every Pending pattern over the first 12 polls of an async open+dump and write. "
     "Transfers are >= 1 byte, seeks are not fragmented, Interrupted is not injected. Distinct by enumeration (compositions, patterns) "
     "or fingerprint; all non-trivial. Oracle: the unfragmented twin in the same process (values for readers, bytes for writers).",
     require={"any": {"compositions_executed": 30000, "dir_reads_equal": 30000, "dir_writes_equal": 30000, "codec_directory_schedules": 1000,
@@ -427,7 +462,9 @@ reg("C14", "exploration",
     "streams from the upstream encoders with foreign parameters/framing fed to decompress_all; streaming through compress/decompress "
     "(compress_async/decompress_async) with caller chunk schedules {1,2,3,7,64,4096,65536, random} over underlying streams that "
     "fragment and answer Pending}; before every one-shot inverse check a truncated and a corrupted copy of the stream are fed to "
-    "decompress_all (a failed call must not influence the next one); every composition of the write chunks for |x| <= 12; 'unknown' on all eight entry points. "
+    "decompress_all (a failed call must not influence the next one); payloads alternating incompressible / compressible segments and "
+    "incompressible payloads of exactly k*65535 bytes; half of the streams are flushed in the middle, every third goes into a sink "
+    "that buffers (std / futures BufWriter), reads into an empty buffer are interspersed (their result is not judged); every composition of the write chunks for |x| <= 12; 'unknown' on all eight entry points. "
     "Distinct by fingerprint of payload; non-trivial = >= 2 bytes. Oracle: identity + upstream decoders with exact stream "
     "consumption + Python gzip for a sample of gzip outputs.",
     require={"any": {"one_shot_inverse_ok": 400, "upstream_decodes_ok": 400, "foreign_streams_decoded": 400,
@@ -474,7 +511,9 @@ reg("C16", "exploration",
     "removed, duplicate adds), save+reopen midway with a sync or async reopen (tiles partly reader-backed), a saved superset that is "
     "reopened and shrunk by removals only (nothing in memory at save time) or by a range-filtered open, by the sync and the async "
     "writer, and a leaf-spilling superset shrunk by removals; archives with more than 2^17 distinct contents part of which recur later "
-    "under non-adjacent ids (built sorted, shuffled, and a second time); all outputs of one writer kind must be byte-identical (and sync == async where no codec is involved); the first three "
+    "under non-adjacent ids (built sorted, shuffled, and a second time); one history writes behind a 20 000-byte prefix; reader-backed "
+    "tiles are looked up between reopen and the remaining adds; unrelated and failing library calls between two builds of the same "
+    "archive; eight threads serialising the same archives at once vs alone; all outputs of one writer kind must be byte-identical (and sync == async where no codec is involved); the first three "
     "outputs are reopened and re-written (rewrite idempotence, covers stored coordinates); plus a cross-process phase in which 6 "
     "separate OS processes (different hash-map seeds) serialise the same archives and the driver compares fingerprints. Distinct by "
     "fingerprint of the logical archive; non-trivial = >= 2 tiles. Oracle: pairwise byte comparison (no golden files).",
